@@ -151,7 +151,7 @@ impl Property for C13 {
         "C13"
     }
     fn cases(&self, tier: Tier) -> u32 {
-        tier.pick(40_000, 400_000)
+        tier.pick(300_000, 3_000_000)
     }
     fn strategy(&self, _tier: Tier) -> BoxedStrategy<Abs> {
         (
